@@ -531,21 +531,26 @@ def long_value_leg(ctx, U):
 
     P = U.P
     Leaf = U.cls[f"{P}Leaf"]
-    for A, B in ((G.LONG_STRS[0], G.LONG_STRS[1]), (G.LONG_STRS[1], G.LONG_STRS[2]), ("x" * 5000 + "1" + "y" * 5000, "x" * 5000 + "2" + "y" * 5000)):
+    Qty, Typed = U.module.__dict__[f"{P}Qty"], U.cls[f"{P}Typed"]
+    mk_s = lambda x: Leaf(v=1, s=x)  # noqa: E731
+    mk_t = lambda x: Typed(ty=x)  # noqa: E731
+    for mk, A, B in ((mk_s, G.LONG_STRS[0], G.LONG_STRS[1]), (mk_s, G.LONG_STRS[1], G.LONG_STRS[2]), (mk_s, "x" * 5000 + "1" + "y" * 5000, "x" * 5000 + "2" + "y" * 5000),
+                     # values of a user class whose __format__ says less than its str()
+                     (mk_t, Qty(2.5, "kg"), Qty(2.5, "lb")), (mk_t, Qty(1.0, "m"), Qty(1.0, ""))):
         ctx.evaluations += 1
         ctx.count("long_values_differing_in_the_middle")
-        b_alone = Leaf(v=1, s=B)
+        b_alone = mk(B)
         id_alone = b_alone.id
         b_alone.detach()
         del b_alone
         collect()
-        a = Leaf(v=1, s=A)
-        b = Leaf(v=1, s=B)
+        a = mk(A)
+        b = mk(B)
         got = b.id
         a.detach()
         b.detach()
         if got != id_alone or a.id == got:
-            ctx.violation("id-nondeterministic", "the id of a node with a long property value depends on whether another node (same class and origin, a value of the same length that differs in the middle) is alive", {"alone": id_alone, "next_to_the_other": got, "value_length": len(B)})
+            ctx.violation("id-nondeterministic", "the id of a node depends on whether another node (same class and origin, a different value: a long one that differs in the middle / one whose __format__ says less than its str()) is alive", {"alone": id_alone, "next_to_the_other": got, "value": str(B)[:40]})
         del a, b
 
 
